@@ -33,6 +33,8 @@
 #define CONTENDED_CAP 4000
 #define DRAIN_CAP 120000
 #define DRAIN_QUANTUM 200
+#define MAXFL 4096
+#define SBCAP 32
 
 enum { K_BOOL, K_INT, K_FLOAT, K_DOUBLE, K_PTR, K_FLAG, K_SPIN, K_TICKET, K_TSTACK };
 enum { S_RANDOM, S_PCT, S_TARGET, S_STALL, S_SERIAL, S_REPLAY, NSTRAT };
@@ -50,8 +52,11 @@ typedef struct {
   POp ops[MAXT][MAXOPS];
   int strategy, p_den, pct_d, stall_t, stall_k, stall_len;
   uint64_t sched_seed;
+  int tso, flush_den; // store-buffer model on/off; a buffered store becomes visible at a decision point with probability 1/flush_den
+  int nfl;
   int npre;
   Pre pre[MAXPRE];
+  Pre fl[MAXFL];      // replay: when thread x is at its k-th decision point, the oldest buffered store of thread y becomes visible
 } Plan;
 
 typedef struct { long ret, bout; unsigned inv, resp; int done; } OpRes;
@@ -60,11 +65,14 @@ typedef struct {
   OpRes r[MAXT][MAXOPS];
   unsigned char final[MAXOBJ][MAXSTATE];
   long steps, switches, conflict_windows, msteps, cas_fail_writeback, drained, stall_fired, pct_fired;
+  long sb_buffered, sb_flushed, sb_forced, sb_windows; // stores that went through a buffer; made visible by the scheduler; by a barrier / own overlapping load; loads that overtook an own buffered store
   uint64_t loghash;
   int badobj;
   char detail[400];
+  int nfl;
   int npre;
   Pre pre[MAXPRE];
+  Pre fl[MAXFL];
 } Result;
 
 // ------------------------------------------------------------------ rng
@@ -171,6 +179,14 @@ static int pre_used[MAXPRE];
 static sigjmp_buf crash_jb;
 static void *objaddr[MAXOBJ];
 static unsigned char arena[1024] __attribute__((aligned(64)));
+// ---- store buffers (x86-TSO): a plain store goes into its thread's FIFO and reaches memory later; the thread's own loads
+// see it (an overlapping load drains the buffer first, which TSO allows), locked instructions, xchg and mfence drain it
+typedef struct { unsigned char *addr; int size; unsigned char bytes[16]; } SBEnt;
+static SBEnt sb[MAXT][SBCAP];
+static int sb_head[MAXT], sb_n[MAXT];
+static struct { int active; unsigned char *addr; int size; unsigned char old[16]; } sb_pend[MAXT];
+static int tso_on;
+static int fl_used[MAXFL];
 #define SENT(i) ((unsigned char)(0xA5 ^ ((i) * 31)))
 
 static int runnable_count(void) {
@@ -275,6 +291,59 @@ static void abort_run(int cls, const char *why) {
   setcontext(&main_ctx);
 }
 
+static void sb_flush_one(int t) {
+  if (!sb_n[t]) return;
+  SBEnt *e = &sb[t][sb_head[t]];
+  memcpy(e->addr, e->bytes, e->size);
+  sb_head[t] = (sb_head[t] + 1) % SBCAP;
+  sb_n[t]--;
+}
+static void sb_drain(int t) { while (sb_n[t]) sb_flush_one(t); }
+static void sb_drain_all(void) { for (int t = 0; t < MAXT; t++) sb_drain(t); }
+static int sb_overlaps(int t, const unsigned char *a, int n) {
+  for (int i = 0; i < sb_n[t]; i++) {
+    SBEnt *e = &sb[t][(sb_head[t] + i) % SBCAP];
+    if (a < e->addr + e->size && e->addr < a + n) return 1;
+  }
+  return 0;
+}
+// what thread t itself would read at p: memory overlaid with its own buffered stores, oldest first (the harness reads
+// results the emitted code left behind through pointers)
+static long sb_forward_long(int t, const long *p) {
+  unsigned char v[8];
+  memcpy(v, p, 8);
+  for (int i = 0; i < sb_n[t]; i++) {
+    SBEnt *e = &sb[t][(sb_head[t] + i) % SBCAP];
+    for (int b = 0; b < e->size; b++) {
+      long d = e->addr + b - (const unsigned char *)p;
+      if (d >= 0 && d < 8) v[d] = e->bytes[b];
+    }
+  }
+  long r;
+  memcpy(&r, v, 8);
+  return r;
+}
+// the scheduler's part: at a decision point of thread `me` some thread's oldest buffered store may become visible
+static void sb_schedule(int me) {
+  if (P->strategy == S_REPLAY) {
+    for (int i = 0; i < P->nfl; i++)
+      if (!fl_used[i] && P->fl[i].x == me && P->fl[i].k == lcount[me]) {
+        fl_used[i] = 1;
+        int y = P->fl[i].y;
+        if (y >= 0 && y < MAXT && sb_n[y]) { sb_flush_one(y); R->sb_flushed++; if (R->nfl < MAXFL) { R->fl[R->nfl].x = me; R->fl[R->nfl].k = lcount[me]; R->fl[R->nfl].y = y; R->nfl++; } }
+      }
+    return;
+  }
+  if (P->flush_den <= 0 || below(P->flush_den)) return;
+  int cand[MAXT], n = 0;
+  for (int t = 0; t < P->nthreads; t++) if (sb_n[t]) cand[n++] = t;
+  if (!n) return;
+  int y = cand[below(n)];
+  sb_flush_one(y);
+  R->sb_flushed++;
+  if (R->nfl < MAXFL) { R->fl[R->nfl].x = me; R->fl[R->nfl].k = lcount[me]; R->fl[R->nfl].y = y; R->nfl++; }
+}
+
 // one decision point of the current thread
 static void decision(long site, char kind) {
   int me = cur;
@@ -289,7 +358,8 @@ static void decision(long site, char kind) {
     for (int t = 0; t < P->nthreads; t++)
       if (t != me && pending_window[t] && inflight[t] == inflight[me]) { R->conflict_windows++; pending_window[t] = 0; }
   if (verbose) printf("  step %ld: thread %d at %s\n", R->steps, me, site_text(site));
-  if (phase == 0 && R->steps > CONTENDED_CAP) { phase = 1; quantum = 0; R->drained = 1; }
+  if (phase == 0 && R->steps > CONTENDED_CAP) { phase = 1; quantum = 0; R->drained = 1; if (tso_on) { sb_drain_all(); tso_on = 0; } }
+  if (tso_on) sb_schedule(me);
   if (phase == 1 && R->steps > CONTENDED_CAP + DRAIN_CAP) {
     static char why[300];
     snprintf(why, sizeof why, "threads still running after %d contended + %d fair steps; thread %d last at %s", CONTENDED_CAP,
@@ -298,6 +368,7 @@ static void decision(long site, char kind) {
   }
   int next = choose(kind);
   if (next < 0) { // everybody done
+    sb_drain_all(); // what is still buffered reaches memory eventually
     cur = -1;
     sim_active = 0;
     setcontext(&main_ctx);
@@ -317,7 +388,53 @@ static void decision(long site, char kind) {
 
 void sim_yield_c(long site) {
   if (cur < 0) return;
-  decision(site, site_kind(site));
+  char kind = site_kind(site);
+  decision(site, kind);
+  // a locked instruction, xchg or mfence drains the executing thread's buffer; so does (conservatively, TSO allows a drain at
+  // any time) an access whose address the simulator was not told
+  if (tso_on && sb_n[cur]) { R->sb_forced += sb_n[cur]; sb_drain(cur); }
+}
+
+// a plain load or store of `size` bytes at `addr` is about to execute
+void sim_access_c(long imm, unsigned char *addr) {
+  if (cur < 0) return;
+  long site = imm & 0xffffff;
+  int size = (int)(imm >> 24) & 31, store = (int)(imm >> 30) & 1;
+  decision(site, store ? 'S' : 'L');
+  int me = cur;
+  if (!tso_on) return;
+  if (store) {
+    // private memory (the thread's own stack, except an automatic object it has published) is not buffered: nobody else
+    // looks at it, and the harness reuses it between operations
+    int priv = addr >= (unsigned char *)stacks[me] && addr < (unsigned char *)stacks[me] + STACKSZ;
+    if (priv && P->obj[0].local && objaddr[0] && addr < (unsigned char *)objaddr[0] + P->obj[0].size && (unsigned char *)objaddr[0] < addr + size) priv = 0;
+    if (priv) return;
+    sb_pend[me].active = 1;
+    sb_pend[me].addr = addr;
+    sb_pend[me].size = size;
+    memcpy(sb_pend[me].old, addr, size);
+  } else if (sb_n[me]) {
+    if (sb_overlaps(me, addr, size)) { R->sb_forced += sb_n[me]; sb_drain(me); }
+    else R->sb_windows++;
+  }
+}
+
+// the store announced by sim_access_c has executed: move its bytes from memory into the buffer
+void sim_store_post_c(void) {
+  if (cur < 0) return;
+  int me = cur;
+  if (!sb_pend[me].active) return;
+  sb_pend[me].active = 0;
+  if (sb_n[me] == SBCAP) { sb_flush_one(me); R->sb_forced++; }
+  SBEnt *e = &sb[me][(sb_head[me] + sb_n[me]) % SBCAP];
+  e->addr = sb_pend[me].addr;
+  e->size = sb_pend[me].size;
+  memcpy(e->bytes, e->addr, e->size);
+  // memory shows, for now, what it showed before -- unless an older store of this thread to the same bytes is still
+  // buffered too: then the older bytes are what memory must keep showing, and they are already there
+  memcpy(e->addr, sb_pend[me].old, e->size);
+  sb_n[me]++;
+  R->sb_buffered++;
 }
 
 // ---- automatic storage: thread 0 runs the owner function emitted by chibicc, which calls back here
@@ -360,6 +477,7 @@ void sim_own_end(void *ctx) {
     blocked[0] = 1;
     decision(-3, 'B');
   }
+  sb_drain_all(); // the object dies with this frame: nothing may still be on its way to it
   memcpy(R->final[0], objaddr[0], P->obj[0].size);
 }
 
@@ -388,7 +506,7 @@ static void worker(int t) {
     inflight[t] = -1;
     r->resp = ++stamp;
     r->ret = ret;
-    r->bout = b;
+    r->bout = tso_on ? sb_forward_long(t, &b) : b;
     r->done = 1;
     if (optable[o->op].cls == 4 && ret == 0 && b != o->b) R->cas_fail_writeback++;
   }
@@ -589,6 +707,10 @@ static void run_plan(const Plan *p, Result *r) {
   phase = quantum = samerun = 0;
   stalled_until = 0;
   memset(pre_used, 0, sizeof(int) * (p->npre < MAXPRE ? p->npre : MAXPRE));
+  memset(fl_used, 0, sizeof(int) * (p->nfl < MAXFL ? p->nfl : MAXFL));
+  r->nfl = 0;
+  tso_on = p->tso;
+  for (int t = 0; t < MAXT; t++) { sb_head[t] = sb_n[t] = 0; sb_pend[t].active = 0; }
   own_k = 0;
   for (int t = 0; t < MAXT; t++) { done[t] = 1; blocked[t] = 0; lcount[t] = 0; inflight[t] = -1; pending_window[t] = 0; loaded_in_op[t] = 0; }
   if (p->strategy == S_PCT) {
@@ -793,6 +915,18 @@ static int gen(Plan *p, uint64_t seed) {
   p->stall_len = below(3) == 0 ? 0 : 20 + below(400);
   p->sched_seed = rnd();
   p->npre = 0;
+  p->nfl = 0;
+  // store-buffer model for a quarter of the multi-threaded plans. Operations that ARE plain stores by design (atomic_store,
+  // atomic_flag_clear as chibicc's <stdatomic.h> spells them: not read-modify-writes, so outside this property) would be
+  // flagged for what they are; plans containing one keep sequentially consistent memory.
+  p->tso = p->nthreads > 1 && below(4) == 0;
+  static const int fdens[] = {2, 8, 64, 1 << 20};
+  p->flush_den = fdens[below(4)];
+  for (int t = 0; t < p->nthreads && p->tso; t++)
+    for (int k = 0; k < p->nops[t]; k++) {
+      const struct opinfo *oi = &optable[p->ops[t][k].op];
+      if (oi->cls == 6 || strstr(oi->opname, "clear") || !strncmp(oi->opname, "store", 5)) p->tso = 0;
+    }
   return 0;
 }
 
@@ -800,8 +934,8 @@ static int gen(Plan *p, uint64_t seed) {
 static void hex(FILE *f, const unsigned char *b, int n) { for (int i = 0; i < n; i++) fprintf(f, "%02x", b[i]); }
 
 static void print_plan(FILE *f, const Plan *p, int with_pre) {
-  fprintf(f, "plan build=%d nthreads=%d nobj=%d strategy=%s p_den=%d pct_d=%d stall=%d,%d,%d sched_seed=%llu\n", p->build, p->nthreads,
-          p->nobj, stratname[p->strategy], p->p_den, p->pct_d, p->stall_t, p->stall_k, p->stall_len, (unsigned long long)p->sched_seed);
+  fprintf(f, "plan build=%d nthreads=%d nobj=%d strategy=%s p_den=%d pct_d=%d stall=%d,%d,%d sched_seed=%llu tso=%d,%d\n", p->build, p->nthreads,
+          p->nobj, stratname[p->strategy], p->p_den, p->pct_d, p->stall_t, p->stall_k, p->stall_len, (unsigned long long)p->sched_seed, p->tso, p->flush_den);
   for (int j = 0; j < p->nobj; j++) {
     const struct opinfo *o = &optable[group_ops[group_first[p->obj[j].group]]];
     fprintf(f, "obj %d %s size=%d adjacent=%d local=%d init=", j, o->name, p->obj[j].size, p->obj[j].adjacent, p->obj[j].local);
@@ -811,8 +945,10 @@ static void print_plan(FILE *f, const Plan *p, int with_pre) {
   for (int t = 0; t < p->nthreads; t++)
     for (int k = 0; k < p->nops[t]; k++)
       fprintf(f, "op %d %s %d %ld %ld\n", t, optable[p->ops[t][k].op].name, p->ops[t][k].obj, p->ops[t][k].a, p->ops[t][k].b);
-  if (with_pre)
+  if (with_pre) {
     for (int i = 0; i < p->npre; i++) fprintf(f, "pre %d %d %d\n", p->pre[i].x, p->pre[i].k, p->pre[i].y);
+    for (int i = 0; i < p->nfl; i++) fprintf(f, "fl %d %d %d\n", p->fl[i].x, p->fl[i].k, p->fl[i].y);
+  }
   fprintf(f, "end\n");
 }
 
@@ -824,8 +960,8 @@ static int read_plan(FILE *f, Plan *p) {
     if (!strncmp(line, "plan ", 5)) {
       unsigned long long ss = 0;
       char st[32] = "";
-      sscanf(line, "plan build=%d nthreads=%d nobj=%d strategy=%31s p_den=%d pct_d=%d stall=%d,%d,%d sched_seed=%llu", &p->build,
-             &p->nthreads, &p->nobj, st, &p->p_den, &p->pct_d, &p->stall_t, &p->stall_k, &p->stall_len, &ss);
+      sscanf(line, "plan build=%d nthreads=%d nobj=%d strategy=%31s p_den=%d pct_d=%d stall=%d,%d,%d sched_seed=%llu tso=%d,%d", &p->build,
+             &p->nthreads, &p->nobj, st, &p->p_den, &p->pct_d, &p->stall_t, &p->stall_k, &p->stall_len, &ss, &p->tso, &p->flush_den);
       p->sched_seed = ss;
       p->strategy = S_REPLAY;
       for (int i = 0; i < NSTRAT; i++) if (!strcmp(st, stratname[i])) p->strategy = i;
@@ -853,6 +989,10 @@ static int read_plan(FILE *f, Plan *p) {
       int x, k, y;
       if (sscanf(line, "pre %d %d %d", &x, &k, &y) != 3 || p->npre >= MAXPRE) return -1;
       p->pre[p->npre].x = x; p->pre[p->npre].k = k; p->pre[p->npre].y = y; p->npre++;
+    } else if (!strncmp(line, "fl ", 3)) {
+      int x, k, y;
+      if (sscanf(line, "fl %d %d %d", &x, &k, &y) != 3 || p->nfl >= MAXFL) return -1;
+      p->fl[p->nfl].x = x; p->fl[p->nfl].k = k; p->fl[p->nfl].y = y; p->nfl++;
     } else if (!strncmp(line, "end", 3))
       break;
   }
@@ -889,6 +1029,8 @@ static void to_replay(Plan *p, const Result *r) {
   p->strategy = S_REPLAY;
   p->npre = r->npre;
   memcpy(p->pre, r->pre, sizeof(Pre) * r->npre);
+  p->nfl = r->nfl;
+  memcpy(p->fl, r->fl, sizeof(Pre) * r->nfl);
 }
 
 // does candidate c still fail with class cls? tries its own schedule, then fresh seeded schedules
@@ -897,7 +1039,7 @@ static int still_fails(Plan *c, int cls, int search) {
   run_plan(c, &mr);
   if (mr.cls == cls) { to_replay(c, &mr); return 1; }
   uint64_t s0 = c->sched_seed;
-  int strat0 = c->strategy, np0 = c->npre;
+  int strat0 = c->strategy, np0 = c->npre, nf0 = c->nfl;
   for (int i = 0; i < search; i++) {
     c->strategy = (int[]){S_TARGET, S_RANDOM, S_PCT, S_RANDOM}[i % 4];
     c->p_den = (int[]){2, 4, 2, 16}[i % 4];
@@ -909,6 +1051,7 @@ static int still_fails(Plan *c, int cls, int search) {
   }
   c->strategy = strat0;
   c->npre = np0;
+  c->nfl = nf0;
   c->sched_seed = s0;
   return 0;
 }
@@ -1202,7 +1345,7 @@ int main(int argc, char **argv) {
     uint64_t master = strtoull(argv[2], 0, 0);
     long first = atol(argv[3]), count = atol(argv[4]);
     long runs = 0, viol = 0, steps = 0, switches = 0, windows = 0, nontriv = 0, msteps = 0, casfail = 0, drained = 0, stallf = 0, pctf = 0,
-         ops = 0, minimised = 0, sampled_distinct = 0;
+         ops = 0, minimised = 0, sampled_distinct = 0, tso_plans = 0, sbb = 0, sbf = 0, sbd = 0, sbw = 0;
     long by_strat[NSTRAT] = {0}, by_threads[MAXT + 1] = {0}, by_cls[9] = {0}, by_storage[10] = {0}, by_build[2] = {0}, by_viol[5] = {0};
     for (long i = first; i < first + count; i++) {
       uint64_t seed = mixseed(master, i);
@@ -1212,6 +1355,7 @@ int main(int argc, char **argv) {
       steps += r.steps; switches += r.switches; windows += r.conflict_windows; msteps += r.msteps;
       casfail += r.cas_fail_writeback; drained += r.drained; stallf += r.stall_fired; pctf += r.pct_fired;
       by_strat[p.strategy]++; by_threads[p.nthreads]++; by_build[p.build]++;
+      tso_plans += p.tso; sbb += r.sb_buffered; sbf += r.sb_flushed; sbd += r.sb_forced; sbw += r.sb_windows;
       for (int t = 0; t < p.nthreads; t++)
         for (int k = 0; k < p.nops[t]; k++) { ops++; by_cls[optable[p.ops[t][k].op].cls]++; by_storage[optable[p.ops[t][k].op].storage]++; }
       if (r.conflict_windows > 0) {
@@ -1237,6 +1381,7 @@ int main(int argc, char **argv) {
     static const char *sn[] = {"ptr", "member", "global", "gmember", "garray", "algo", "nested", "automatic", "tls", "tlsmember"};
     for (int c = 0; c < 10; c++) printf(" storage_%s=%ld", sn[c], by_storage[c]);
     printf(" build_default=%ld build_pic=%ld", by_build[0], by_build[1]);
+    printf(" tso_plans=%ld tso_stores_buffered=%ld tso_flushed_by_scheduler=%ld tso_drained_by_barrier_or_own_load=%ld tso_loads_overtaking_own_store=%ld", tso_plans, sbb, sbf, sbd, sbw);
     for (int c = 1; c < 5; c++) printf(" viol_%s=%ld", clsname[c], by_viol[c]);
     printf("\n");
     return 0;
